@@ -27,8 +27,14 @@ import time
 import traceback
 
 VERIF = os.path.dirname(os.path.dirname(os.path.abspath(__file__)))
-REPLAY_DIR = os.path.join(VERIF, "replays")
-EVIDENCE_DIR = os.path.join(VERIF, "evidence")
+_ALT = os.path.realpath(os.environ.get("VERIF_REPO", "/repo")) != "/repo"
+# runs against a scratch tree (mutant testing) must not clobber the evidence of /repo
+REPLAY_DIR = os.environ.get("VERIF_REPLAY_DIR") or (
+    "/dev/shm/verif-alt/replays" if _ALT else os.path.join(VERIF, "replays")
+)
+EVIDENCE_DIR = os.environ.get("VERIF_EVIDENCE_DIR") or (
+    "/dev/shm/verif-alt/evidence" if _ALT else os.path.join(VERIF, "evidence")
+)
 KNOWN_FILE = os.path.join(VERIF, "known_findings.json")
 NWORKERS = int(os.environ.get("VERIF_WORKERS", "16"))
 
@@ -458,6 +464,8 @@ def check(prop_id, tier, verif_seed):
         by_sig.setdefault(v["sig"], []).append(v)
     reported, known_hit = [], []
     rc = 0
+    if by_sig:
+        print(f"[{prop_id}] violation classes seen: " + ", ".join(f"{k} x{len(v)}" for k, v in sorted(by_sig.items())))
     os.makedirs(REPLAY_DIR, exist_ok=True)
     for sig in sorted(by_sig):
         vs = by_sig[sig]
